@@ -631,6 +631,9 @@ class Manager:
 
             self._cache[(event.name, channels)] = event_handlers
 
+        # A handler that calls flush() is still being handled when the nested
+        # pass is over: what it fires afterwards belongs to its event, too.
+        handling = self._currently_handling
         if isinstance(event, generate_events):
             with self._lock:
                 self._currently_handling = event
@@ -684,7 +687,7 @@ class Manager:
             if event.stopped:
                 break  # Stop further event processing
 
-        self._currently_handling = None
+        self._currently_handling = handling
         self._eventDone(event, err)
 
     def _eventDone(self, event, err=None):
